@@ -1642,6 +1642,8 @@ impl StreamingQueueCompressor {
                         sequence,
                         is_sync_token: true,
                     };
+                    #[cfg(ragc_verif)]
+                    crate::verif_hooks::ev("p.push", [sync_token.sequence, sync_token.sample_priority as i64 as u64, sync_token.cost as u64, 1]);
                     self.queue.push(sync_token, 0)?;
                 }
 
@@ -1692,6 +1694,8 @@ impl StreamingQueueCompressor {
                                 sequence,
                                 is_sync_token: true,
                             };
+                            #[cfg(ragc_verif)]
+                            crate::verif_hooks::ev("p.push", [sync_token.sequence, sync_token.sample_priority as i64 as u64, sync_token.cost as u64, 1]);
                             self.queue.push(sync_token, 0)?; // 0 size for sync tokens
                         }
                     } else if self.config.verbosity > 1 {
@@ -1723,6 +1727,8 @@ impl StreamingQueueCompressor {
         // Queue is now a priority queue - highest priority processed first
         // eprintln!("[RAGC PUSH] sample={} contig={} priority={} cost={} sequence={}",
         //           &task.sample_name, &task.contig_name, task.sample_priority, task.cost, task.sequence);
+        #[cfg(ragc_verif)]
+        crate::verif_hooks::ev("p.push", [task.sequence, task.sample_priority as i64 as u64, task.cost as u64, 0]);
         self.queue
             .push(task, task_size)
             .context("Failed to push to queue")?;
@@ -1787,6 +1793,8 @@ impl StreamingQueueCompressor {
                 sequence,
                 is_sync_token: true,
             };
+            #[cfg(ragc_verif)]
+            crate::verif_hooks::ev("p.push", [sync_token.sequence, sync_token.sample_priority as i64 as u64, sync_token.cost as u64, 1]);
             self.queue.push(sync_token, 0)?;
         }
 
@@ -1826,6 +1834,8 @@ impl StreamingQueueCompressor {
                 sequence,
                 is_sync_token: true,
             };
+            #[cfg(ragc_verif)]
+            crate::verif_hooks::ev("p.push", [sync_token.sequence, sync_token.sample_priority as i64 as u64, sync_token.cost as u64, 1]);
             self.queue.push(sync_token, 0)?;
         }
 
@@ -1833,6 +1843,8 @@ impl StreamingQueueCompressor {
             eprintln!("  Closing queue...");
         }
 
+        #[cfg(ragc_verif)]
+        crate::verif_hooks::ev("p.close", [0, 0, 0, 0]);
         // Close queue - no more pushes allowed
         self.queue.close();
 
@@ -5046,6 +5058,8 @@ fn worker_thread(
         // Pull from queue (blocks if empty, returns None when closed)
         let queue_start = std::time::Instant::now();
         let Some(task) = queue.pull() else {
+            #[cfg(ragc_verif)]
+            crate::verif_hooks::ev("p.exit", [worker_id as u64, 0, 0, 0]);
             // Print timing summary on exit
             if config.verbosity > 0 {
                 eprintln!("Worker {} TIMING: queue_wait={:?} segment_proc={:?} barrier_wait={:?} sync_proc={:?} contigs={} syncs={}",
@@ -5085,6 +5099,11 @@ fn worker_thread(
 
         let queue_wait = queue_start.elapsed();
         total_queue_wait += queue_wait;
+        #[cfg(ragc_verif)]
+        {
+            crate::verif_hooks::ev("p.pull", [worker_id as u64, task.is_sync_token as u64, task.sequence, task.sample_priority as i64 as u64]);
+            crate::verif_hooks::yield_point(10);
+        }
 
         // Handle sync tokens with barrier synchronization (matches C++ AGC registration stage)
         if task.is_sync_token {
@@ -5102,8 +5121,15 @@ fn worker_thread(
             // =================================================================
 
             // Barrier 1: All workers arrive at sample boundary
+            #[cfg(ragc_verif)]
+            {
+                crate::verif_hooks::yield_point(11);
+                crate::verif_hooks::ev("p.barrier.arrive", [worker_id as u64, 1, 0, 0]);
+            }
             let barrier_start = std::time::Instant::now();
             barrier.wait();
+            #[cfg(ragc_verif)]
+            crate::verif_hooks::ev("p.barrier.leave", [worker_id as u64, 1, 0, 0]);
             total_barrier_wait += barrier_start.elapsed();
 
             // Phase 2 (Thread 0 only): Classify raw segments and prepare batch
@@ -5165,8 +5191,15 @@ fn worker_thread(
             }
 
             // Barrier 2: All workers see prepared buffers
+            #[cfg(ragc_verif)]
+            {
+                crate::verif_hooks::yield_point(12);
+                crate::verif_hooks::ev("p.barrier.arrive", [worker_id as u64, 2, 0, 0]);
+            }
             let barrier_start = std::time::Instant::now();
             barrier.wait();
+            #[cfg(ragc_verif)]
+            crate::verif_hooks::ev("p.barrier.leave", [worker_id as u64, 2, 0, 0]);
             total_barrier_wait += barrier_start.elapsed();
 
             let compress_start = std::time::Instant::now();
@@ -5209,8 +5242,15 @@ fn worker_thread(
             }
 
             // Barrier 3: All workers done with compression and buffering
+            #[cfg(ragc_verif)]
+            {
+                crate::verif_hooks::yield_point(13);
+                crate::verif_hooks::ev("p.barrier.arrive", [worker_id as u64, 3, 0, 0]);
+            }
             let barrier_start = std::time::Instant::now();
             barrier.wait();
+            #[cfg(ragc_verif)]
+            crate::verif_hooks::ev("p.barrier.leave", [worker_id as u64, 3, 0, 0]);
             total_barrier_wait += barrier_start.elapsed();
 
             if worker_id == 0 && config.verbosity > 0 {
@@ -5283,8 +5323,15 @@ fn worker_thread(
             }
 
             // Barrier 4: All workers ready for next batch (reduced from 2 barriers)
+            #[cfg(ragc_verif)]
+            {
+                crate::verif_hooks::yield_point(14);
+                crate::verif_hooks::ev("p.barrier.arrive", [worker_id as u64, 4, 0, 0]);
+            }
             let barrier_start = std::time::Instant::now();
             barrier.wait();
+            #[cfg(ragc_verif)]
+            crate::verif_hooks::ev("p.barrier.leave", [worker_id as u64, 4, 0, 0]);
             total_barrier_wait += barrier_start.elapsed();
 
             // Track total sync token processing time
@@ -5401,10 +5448,16 @@ fn worker_thread(
 
         // ONE lock acquisition for entire contig (reduces contention significantly)
         // Push to this worker's own buffer (NO CONTENTION - each worker has its own buffer)
+        #[cfg(ragc_verif)]
+        let verif_nsegs = contig_segments.len() as u64;
+        #[cfg(ragc_verif)]
+        crate::verif_hooks::yield_point(15);
         raw_segment_buffers[worker_id]
             .lock()
             .unwrap()
             .extend(contig_segments);
+        #[cfg(ragc_verif)]
+        crate::verif_hooks::ev("p.buffered", [worker_id as u64, task.sequence, verif_nsegs, 0]);
 
         // End timing for segment processing
         total_segment_processing += segment_start.elapsed();
